@@ -5,6 +5,15 @@
 (* Each line is bound to Determinism's variables by a refinement mapping and Determinism's OWN     *)
 (* invariants are evaluated on the bound state:                                                   *)
 (*   Run   line: Out = <<ok, digest>>; result / clash as in Commit  ->  SingleAssignment           *)
+(*         how = inproc<k> | proc2 (cls "rep"): the whole input executed again;                     *)
+(*         how = pool<n>  (cls "pool"):  a consist of 3-7 locomotives with pairwise different        *)
+(*               ratings stepped (set_pwr_aux, set_cur_pwr_max_out, solve_energy_consumption, step)  *)
+(*               inside a rayon pool of n = 1, 2, 4, 7 workers; digest of the whole consist (every   *)
+(*               state field of the consist and of each locomotive, every saved step);              *)
+(*         how = build<k> (cls "build"): a train of >= 3 car types built again from separately       *)
+(*               constructed equal inputs (fresh Vec<RailVehicle>, fresh n_cars_by_type map filled   *)
+(*               in the k-th rotation of the insertion order); digest of the whole simulation.       *)
+(*         A failure is reported as SingleAssignment, SingleAssignment@pool, SingleAssignment@build. *)
 (*   Batch line: for element e of the recorded batch                                              *)
 (*        res[e] = Serial(e)  if its digest equals the digest of e walked alone (Solo line)       *)
 (*               = None       if its digest equals the digest of the pristine element             *)
@@ -27,7 +36,7 @@ VARIABLES l, solo, bres, viol, stats
 tvars == <<fail, inp, res, pool, busy, full, reported, round, result, clash, l, solo, bres, viol, stats>>
 
 None3 == <<"none", 0, 0>>
-Stat0 == [cases |-> 0, runs |-> 0, runs_proc2 |-> 0, runs_err |-> 0, solos |-> 0, solo_err |-> 0,
+Stat0 == [cases |-> 0, runs |-> 0, runs_pool |-> 0, runs_build |-> 0, cases_pool |-> 0, cases_build |-> 0, runs_proc2 |-> 0, runs_err |-> 0, solos |-> 0, solo_err |-> 0,
           batches |-> 0, batches_par |-> 0, batches_err |-> 0, batches_multi_fail |-> 0,
           err_others_walked |-> 0, err_others_untouched |-> 0, serial_order |-> 0, panics |-> 0]
 
@@ -50,8 +59,14 @@ RunEv == /\ Rec[l].ev = "Run"
          /\ LET out == <<IF Rec[l].ok THEN "ok" ELSE "err", Rec[l].d[1], Rec[l].d[2]>> IN
             /\ result' = IF result = None3 THEN out ELSE result
             /\ clash' = (result # None3 /\ result # out)
-         /\ Report(Names(<< <<"SingleAssignment", SingleAssignment'>> >>))
+         /\ Report(Names(<< <<IF Rec[l].cls = "rep" THEN "SingleAssignment" ELSE "SingleAssignment@" \o Rec[l].cls,
+                              SingleAssignment'>> >>))
          /\ stats' = [stats EXCEPT !.runs = @ + 1,
+                                   !.runs_pool = @ + (IF Rec[l].cls = "pool" THEN 1 ELSE 0),
+                                   !.runs_build = @ + (IF Rec[l].cls = "build" THEN 1 ELSE 0),
+                                   \* cases ISSUED with the pool / build comparison (first such line of the case)
+                                   !.cases_pool = @ + (IF Rec[l].cls = "pool" /\ Rec[l].first THEN 1 ELSE 0),
+                                   !.cases_build = @ + (IF Rec[l].cls = "build" /\ Rec[l].first THEN 1 ELSE 0),
                                    !.runs_proc2 = @ + (IF Rec[l].how = "proc2" THEN 1 ELSE 0),
                                    !.runs_err = @ + (IF Rec[l].ok THEN 0 ELSE 1)]
          /\ Quiet /\ UNCHANGED <<solo, bres>>
